@@ -53,6 +53,7 @@ def reviewed : List Row := [
   ⟨"loader", "parseYAML", "assert", "converted.(map[string]interface{})", .code "same"⟩,
   ⟨"loader", "projectName", "assert", "interpolated[\"name\"].(string)", .code "Interpolate of {name: <string>}: no cast is registered for the path `name`, a string stays a string"⟩,
   ⟨"loader", "resolvePaths", "index", "ret[i]", .code "ret := make(types.StringList, len(in)); i ranges over in"⟩,
+  ⟨"loader", "sameResource", "assert", "m[key].(map[string]any)", .code "m[key] was set to a mapping literal a few lines above and paths.ResolveRelativePaths keeps a mapping a mapping; the closure also runs under a deferred recover (C06's repair of include conflicts)"⟩,
   ⟨"override", "EnforceUnicity", "assert", "uniq.(map[string]any)", .code "enforceUnicity of a mapping returns the mapping"⟩,
   ⟨"override", "ExtendService", "assert", "yaml.(map[string]any)", .code "mergeYaml of two mappings at the services.x path is mergeMappings: a mapping"⟩,
   ⟨"override", "Merge", "assert", "merged.(map[string]any)", .code "mergeYaml of two mappings at the root is mergeMappings: a mapping"⟩,
